@@ -42,6 +42,7 @@ func c11(c *ctx) {
 		for a := 0; a < nA; a++ {
 			w.assoc(a)
 		}
+		c11scripted(w, k)
 		w.p4history(c.pick(30, 80))
 		w.emit("races", true, map[string]interface{}{"k": "races", "dp": "up4", "phase": "sequential", "races": nzs(w.s.Races())})
 		w.close()
@@ -234,4 +235,61 @@ func concurrent(w *world, r *rand.Rand, nA, per int, p4 bool) {
 	}
 	wg.Wait()
 	flush("down")
+}
+
+// c11scripted: sessions of DIFFERENT associations sharing a gNB peer and an application filter, with every order of leaving,
+// and a session that points to the shared peer without ever having forwarded through it.
+func c11scripted(w *world, k int) {
+	gnb := uint32(0xC6120150)
+	mk := func(i int, buffering bool) ([]sysh.PdrIE, []sysh.FarIE, []sysh.QerIE) {
+		ue := w.nextUE
+		w.nextUE++
+		teid := w.nextTEID
+		w.nextTEID += 3
+		ul := sysh.PdrIE{ID: 1, Prec: 100 + uint32(i), Src: u8p(0), Teid: u32p3(0, teid, n3IP), UE: u32p2(2, ue), Ohr: u8p(0), Far: 1, Sdf: strp(sdfPool[3])}
+		dl := sysh.PdrIE{ID: 2, Prec: 100 + uint32(i), Src: u8p(1), UE: u32p2(2, ue), Far: 2, Sdf: strp(sdfPool[3])}
+		far2 := sysh.FarIE{ID: 2, Act: 2, Fwd: &sysh.FwdIE{Dst: u8p(0), Ohc: u32p2(teid+1, gnb)}}
+		if buffering {
+			far2 = sysh.FarIE{ID: 2, Act: 0x0C}
+		}
+		return []sysh.PdrIE{ul, dl}, []sysh.FarIE{{ID: 1, Act: 2, Fwd: &sysh.FwdIE{Dst: u8p(1)}}, far2}, nil
+	}
+	est := func(a int, i int, buffering bool) *hsess {
+		pdrs, fars, qers := mk(i, buffering)
+		w.nextCP++
+		h, _ := w.est(a, w.nodes[a], w.nextCP, pdrs, fars, qers, "c11-shared")
+		return h
+	}
+	del := func(h *hsess) {
+		if h != nil && !h.dead {
+			if w.del(h.a, h.up, "c11-shared").Cause == 1 {
+				h.dead = true
+			}
+		}
+	}
+	// A forwards through the peer; B (other association) buffers, is then told the same tunnel while still buffering, and leaves
+	a := est(0, 1, false)
+	b := est(1, 2, true)
+	if b != nil {
+		f := sysh.FarIE{ID: 2, Act: 0x0C, Fwd: &sysh.FwdIE{Dst: u8p(0), Ohc: u32p2(90000, gnb)}}
+		if w.mod(b.a, b.up, modReq{uf: []sysh.FarIE{f}}, "c11-buffer-with-tunnel").Cause == 1 {
+			b.fars[1] = f
+		}
+	}
+	del(b)
+	// C shares peer and filter with A; they leave in either order; a deletion is repeated
+	cs := est(1, 3, false)
+	if k%2 == 0 {
+		del(a)
+		if a != nil {
+			w.del(a.a, a.up, "c11-repeat")
+		}
+		del(cs)
+	} else {
+		del(cs)
+		if cs != nil {
+			w.del(cs.a, cs.up, "c11-repeat")
+		}
+		del(a)
+	}
 }
